@@ -1,11 +1,12 @@
 #!/bin/sh
 # tools/try_patch.sh <patch.diff> <PROP> [<PROP> ...]
 # applies a patch to /repo, runs the quick checks of the given properties, and reverts the patch.
-patch=$1; shift
+patch=$(readlink -f "$1"); shift
+verif=$(cd "$(dirname "$0")/.." && pwd)
 cd /repo || exit 2
 git diff --quiet || { echo "MACHINERY-ERROR /repo has uncommitted changes"; exit 2; }
 git apply "$patch" || { echo "MACHINERY-ERROR patch does not apply"; exit 2; }
-cd /verif
+cd "$verif"
 for p in "$@"; do
   ./check $p --tier ${TIER:-quick} 2>&1 | grep -E "^(VIOLATION|MACHINERY|KNOWN|  key|C[0-9][0-9] )" | cut -c1-300
 done
